@@ -787,7 +787,12 @@ func (e *Evaluator) createSpeculativeObjects(specObj *Cell) (*Cell, error) {
 	}
 
 	var objToSet *Value
-	if parent.Tag == ValueNil {
+	if existing := existingContainer(parent); existing != nil {
+		// the parent was missing when the target was evaluated, but evaluating
+		// the right-hand side has created it since (a.b.x = a.b.y = 1): store
+		// into that container instead of replacing it
+		objToSet = existing
+	} else if parent.Tag == ValueNil {
 		newParent, err := e.createSpeculativeObjects(NewCell(*parent))
 		if err != nil {
 			return nil, err
@@ -813,6 +818,41 @@ func (e *Evaluator) createSpeculativeObjects(specObj *Cell) (*Cell, error) {
 	}
 
 	return cell, nil
+}
+
+// existingContainer returns the array or object that now sits where the
+// speculative value spec was missing, or nil if there is none
+func existingContainer(spec *Value) *Value {
+	if spec.Tag != ValueNil || spec.ParentObj == nil {
+		return nil
+	}
+	owner := spec.ParentObj
+	if owner.Tag == ValueNil {
+		owner = existingContainer(owner)
+		if owner == nil {
+			return nil
+		}
+	}
+	var cell *Cell
+	switch {
+	case owner.Tag == ValueObj && spec.Str != nil:
+		cell = (*owner.Obj)[*spec.Str]
+	case owner.Tag == ValueObj && spec.Num != nil:
+		key := NewValue(*spec.Num)
+		cell = (*owner.Obj)[key.String()]
+	case owner.Tag == ValueArray && spec.Num != nil:
+		index := int(*spec.Num)
+		if index < 0 {
+			index += len(owner.Array)
+		}
+		if index >= 0 && index < len(owner.Array) {
+			cell = owner.Array[index]
+		}
+	}
+	if cell == nil || (cell.Value.Tag != ValueObj && cell.Value.Tag != ValueArray) {
+		return nil
+	}
+	return &cell.Value
 }
 
 func (e *Evaluator) evalAssignment(expr Expr, left *Cell, right *Cell) (*Cell, error) {
